@@ -198,6 +198,8 @@ class Filer(hioing.Mixin):
         """
         self.close(clear=clear)
 
+        # a path made for the other kind of directory (persistent vs temp) must not be reused
+        flipped = temp is not None and bool(temp) != bool(self.temp)
         if temp is not None:
             self.temp = temp
         if headDirPath is not None:
@@ -209,7 +211,7 @@ class Filer(hioing.Mixin):
         if fext is not None:
             self.fext = fext
 
-        if not self.path or not os.path.exists(self.path) or not reuse:
+        if not self.path or not os.path.exists(self.path) or not reuse or flipped:
             self.path, self.file = self.remake(name=self.name,
                                                base=self.base,
                                                temp=self.temp,
